@@ -190,7 +190,10 @@ def run(facts, rep, tier):
                     undecided.setdefault((cls, fld), (a, b, why)); continue
                 if why: ex_used[why] += 1; continue
                 w, o = (a, b) if a.mode == 'W' else (b, a)
-                key = f'RACE|{strip_targs(cls)}::{fld}|{common.finding_fn(w)}|{strip_targs(w.root[1])}'
+                ff_ = common.finding_fn(w)
+                # a write made by a helper the class's entry function calls is filed under that call (whatever member the helper touches:
+                # a cache kept next to the data it mirrors is written at the same place, by the same mechanism)
+                key = f'RACE|{strip_targs(cls)}{("::" + fld) if ">" not in ff_ else ""}|{ff_}|{strip_targs(w.root[1])}'
                 if key not in conflicts:
                     conflicts[key] = (w, o, pa if w is a else pb, pb if w is a else pa)
         inst = f'{cls}::{fld} ({len(accs)} accesses' + (', atomic' if is_atomic else '') + ''.join(f', {v}x {k}' for k, v in ex_used.items()) + ')'
